@@ -310,8 +310,16 @@ pub fn run(env: &Env, spec: &RunSpec, dir: &Path, keep: bool) -> std::io::Result
         fs::write(d("git_version"), format!("{}\n", ch.git_version))?;
     }
 
+    // "@BIN@" in arguments, environment values and gitconfig stands for the run's private bin directory
+    let bin_dir = d("bin").display().to_string();
+    let subst = |x: &str| x.replace("@BIN@", &bin_dir);
+    if let Some(gc) = &spec.gitconfig {
+        if gc.contains("@BIN@") {
+            fs::write(d("home/.gitconfig"), subst(gc))?;
+        }
+    }
     let mut cmd = Command::new(&env.delta_bin);
-    cmd.args(&spec.args);
+    cmd.args(spec.args.iter().map(|a| subst(a)));
     cmd.env_clear();
     cmd.env("PATH", format!("{}:/usr/bin:/bin", d("bin").display()));
     cmd.env("HOME", d("home"));
@@ -326,7 +334,7 @@ pub fn run(env: &Env, spec: &RunSpec, dir: &Path, keep: bool) -> std::io::Result
     cmd.env("DELTASIM_PLAN", d("plan"));
     cmd.env("DELTASIM_RUN", dir);
     for (k, v) in &spec.env {
-        cmd.env(k, v);
+        cmd.env(k, subst(v));
     }
     cmd.current_dir(d("cwd"));
     cmd.stdin(Stdio::from(fs::File::open(d("stdin"))?));
